@@ -11,6 +11,7 @@ DECIDED = ("R1 receive filter: Udp::receive_from_network enqueues (try_send) onl
            "(a datagram taken off the channel is never overwritten).")
 NOT_DECIDED = "routing-class selection as behaviour, exactly-once per destination on healthy links, wildcard / localhost matching semantics."
 DECIDED += "; R8 source / destination are never swapped on the UDP send path (broadcast and multicast fan-out included) and send_loopback builds Envelope{src, dst} in parameter order; R9 exhaustive scan of MulticastGroups::leave_all"
+DECIDED += "; R10 a datagram parked outside the bounded queue keeps its slot; R11 group membership is evaluated at receipt (recorded finding D12)"
 ASSUMPTIONS = ["mpsc::Sender::try_send either enqueues or returns the value"]
 
 RFN = "turmoil::host::Udp::receive_from_network"
